@@ -598,6 +598,19 @@ def rule_r4(facts, col, bodies=None):
                             "work() needs %s%s samples on self.%s to proceed but says it waits for only %s: the wait is already "
                             "satisfied, so the runner calls it again at once, forever (and never learns the stream ended)"
                             % ("" if strict else "more than ", px.v, tgt, need.v), {})
+            elif _offset_of(need, px) is not None:
+                d = _offset_of(need, px)          # need = threshold + d
+                if d > 0 or (d == 0 and not strict):
+                    col.bad("C09.R4", key, body.where(bb),
+                            "work() proceeds once self.%s holds `%s` but says it waits for %d more than that: when the peer delivers what is "
+                            "really needed and goes away, the wait reports 'can never be satisfied' and the runner retires the block with "
+                            "data it could have processed" % (tgt, show(px)[:50], d + (0 if strict else 1)), {})
+                elif d < 0:
+                    col.bad("C09.R4", key, body.where(bb),
+                            "work() needs `%s` on self.%s to proceed but says it waits for %d less: with an amount in between the wait is "
+                            "already satisfied, so the runner calls it again at once and gets the same answer" % (show(px)[:50], tgt, -d), {})
+                else:
+                    col.ok("C09.R4", key, body.where(bb), "waits for exactly the tested threshold")
             elif _structurally_unrelated(need, px):
                 col.bad("C09.R4", key, body.where(bb),
                         "work() tests `len(self.%s) < %s` but reports waiting for `%s`, a different quantity: when the stream holds "
@@ -605,6 +618,20 @@ def rule_r4(facts, col, bodies=None):
                         "forever / never retired" % (tgt, show(px)[:80], show(need)[:80]), {})
             else:
                 col.silent("C09.R4", key, body.where(bb), "threshold and need not comparable")
+
+
+def _offset_of(a, b):
+    """d with a == b + d when the two differ by a visible constant (`x` vs `x - 8`, `x + 1` vs `x`); None otherwise"""
+    pa, pb = peel(a, through_try=False), peel(b, through_try=False)
+    if same_expr(pa, pb):
+        return 0
+    for x, y, sign in ((pa, pb, 1), (pb, pa, -1)):
+        # x = y + c  /  x = y - c
+        if x.k == "bin" and x.op in ("Add", "Sub"):
+            c = _const_int(x.b)
+            if c is not None and same_expr(peel(x.a, through_try=False), y):
+                return sign * (c if x.op == "Add" else -c)
+    return None
 
 
 def _structurally_unrelated(a, b):
